@@ -453,3 +453,15 @@ def contracts():
     c = _c13.metaclass_setattr_contract()
     c.prop = PROP
     return _c14_base_cls() + [c]
+
+
+# the Parameter a class-level assignment goes through: the nearest class in the MRO that declares one
+# (verified for C13)
+_c14_base_gpd = contracts
+
+
+def contracts():
+    from contracts import c13 as _c13
+    c = _c13.get_param_descriptor_contract()
+    c.prop = "C14"
+    return _c14_base_gpd() + [c]
